@@ -26,9 +26,12 @@ def finish(prop, tier, seed, mod, joblist, results, lemmas, wall, verbose=False)
         files.update(r.get("files", {}))
         if r.get("canary"):
             ok = bool(r["violations"])
-            canaries.append({"job": r["job"], "refuted_as_expected": ok})
-            if not ok:
+            blind = bool(r["inconclusive"] or r["mismatches"]) and not ok   # the canary could not run (unsupported call / model mismatch)
+            canaries.append({"job": r["job"], "refuted_as_expected": ok, "could_not_run": blind})
+            if not ok and not blind:
                 canary_fail.append(r["job"])
+            if blind:
+                inconc.append(f"{r['job']}: canary could not run: {(r['inconclusive'] or [str(r['mismatches'][0].get('detail'))])[0][:160]}")
             continue
         for v in r["violations"]:
             viol.append(v)
